@@ -274,6 +274,21 @@ def long_inputs(P, ctx):
     ]
     n = 0
     bad = []
+    import sys
+    old_limit = sys.getrecursionlimit()
+    # the interpreter's DEFAULT recursion limit, as a user of the library has it (the harness raises it for its own needs):
+    # on a grammar without recursion the stack depth must not grow with the input
+    sys.setrecursionlimit(1000)
+    try:
+        bad = _long_cases(P, cases, re)
+    finally:
+        sys.setrecursionlimit(old_limit)
+    return sum(2 * len(c[2]) for c in cases), bad
+
+
+def _long_cases(P, cases, re):
+    n = 0
+    bad = []
     for gr, rx, sources in cases:
         cls, rules = G_.build(P, gr)
         for src in sources:
@@ -287,7 +302,7 @@ def long_inputs(P, ctx):
                 if head != exp:
                     bad.append(("%s of a %d-character input on a grammar without recursion gives %r, expected %r" % (kind, len(src), head[:60], exp),
                                 {"kind": "long", "grammar": gr, "source": [ord(c) for c in src], "request": kind, "implementation": head, "expected": exp}))
-    return n, bad
+    return bad
 
 
 def run(ctx):
@@ -420,6 +435,8 @@ def replay(rp):
     if rp.get("kind") == "long":
         src = "".join(chr(c) for c in rp["source"])
         cls, rules = G_.build(P, [tuple(r) for r in rp["grammar"]])
+        import sys
+        sys.setrecursionlimit(1000)
         got = lib.py_parse(P, rules[0], src, 0) if rp["request"] == "parse" else lib.py_parse_all(P, rules[0], src)
         head = " ".join(got.split(" ")[:2]) if got.startswith("ok") else got
         print("now:", head[:80], "expected:", rp["expected"])
